@@ -106,6 +106,10 @@ def run_case(tap, g, idx, spec):
     coords = GG.grid(nx, ny, float(round(g.uniform(3, 9), 2)))
     flow = GP.draw_flow(g, arr)
     n_months = int(g.choice([1, 5, 12, 13, 24, 36, 60, 120, 240])) if g.random() < 0.8 else int(g.integers(1, 241))
+    # the long-time table ends at ln(t/ts) = 3.003: keep the horizon inside it (shallow boreholes in diffusive soil would otherwise make
+    # the tool's own interpolation raise, which is not what this property is about)
+    ts_est = H**2 / (9.0 * ph["soil"]["conductivity"] / ph["soil"]["rho_cp"])
+    n_months = max(1, min(n_months, int(19.0 * ts_est / (744.0 * 3600.0))))
     desc = GL.draw_desc(g)
     loads = GL.make_loads(desc)
     case = {"phys": ph, "H": H, "grid": [nx, ny], "flow": flow, "n_months": n_months, "loads": desc}
@@ -196,6 +200,8 @@ def run_case(tap, g, idx, spec):
     # ---------------- (3) simulate(HOURLY) on a fresh object for short horizons
     if spec["hourly"] and idx % spec["hourly_every"] == 0:
         nm = int(g.choice([12, 24]))
+        if nm * 744.0 * 3600.0 > 19.0 * ts_est:
+            nm = 12
         ghe2 = GG.make_ghe(ph, coords, H, flow, loads, nm, rgen=g, real_g=False)
         P2 = params_of(ghe2)
         tap.pop()
@@ -282,6 +288,9 @@ def check(tier, seed):
         for v in r["viol"]:
             rep.violate(v["mechanism"], v["message"], {"case": v["case"]})
     rep.extra["monitor_hits_simulate_detailed"] = hits
+    from vf.props import pool_common as _PC
+
+    _PC.add_workload_monitor_results(rep, PROP, tier, seed)
     if hits == 0:
         rep.inconclusive.append("wrapper on _simulate_detailed never reached")
     if rep.extra.get("hourly_runs", 0) == 0:
